@@ -87,7 +87,10 @@ class Gen:
     if x < self.fail_rate / 2:
       return {'kind': 'rpc'}
     if x < self.fail_rate:
-      return {'kind': 'other'}
+      # the model sees 'the algorithm failed'; HOW it fails varies on the real side: an exception, an exception whose
+      # text cannot be encoded, an answer that cannot be converted
+      y = r.random()
+      return {'kind': 'other'} if y < 0.6 else {'kind': 'other', 'how': 'surrogate-message' if y < 0.8 else 'malformed-decision'}
     n = max(0, count + r.choice([-2, -1, 0, 0, 0, 0, 1, 2, 3]))
     sugg = [{'params': self.fresh(), 'md': [self.kv()] if r.random() < 0.3 else []} for _ in range(n)]
     if len(sugg) >= 2 and r.random() < 0.25:
@@ -174,7 +177,7 @@ class Gen:
       self.last_es[key] = tid
       x = r.random()
       if x < max(0.15, self.fail_rate):
-        es = {'kind': 'raise'}
+        es = {'kind': 'raise'} if r.random() < 0.7 else {'kind': 'raise', 'how': 'surrogate-message'}
       else:
         ds = [[tid, r.random() < 0.5]] if r.random() < 0.85 else []
         if r.random() < 0.3:
